@@ -72,7 +72,8 @@ def main():
     for unit in spec.get('verus', []):
         tpl = os.path.join(VERIF, 'contracts', unit + '.vtpl')
         try:
-            r = verus_unit.check_unit(unit, tpl, os.path.join(VERIF, 'build', 'verus'), repo=REPO)
+            r = verus_unit.check_unit(unit, tpl, os.path.join(VERIF, 'build', 'verus'), repo=REPO,
+                                      extra=(['--no-cheating'] if unit == 'lemmas' else []))
         except ExtractError as e:
             undecided.append('verus unit %s: extraction failed: %s' % (unit, e))
             continue
